@@ -1,6 +1,7 @@
 /-
   C11 — Dry mode performs no writes.
 -/
+import EscProofs.P.GenReap
 import EscProofs.Lemmas.Run
 import EscProofs.Lemmas.Classify
 namespace Esc.P
